@@ -51,6 +51,15 @@ Definition raw_null_or (p : json -> bool) (j : json) : bool := match j with JNul
 Section V.
   Variable classify : N -> cclass.
 
+  (* IntRangeExpr.from_str(s) does not raise.  A Python container holds at most 2^63 - 1 values: building an
+     expression with more raises (OverflowError inside the parser, reported as ExpressionError), so the
+     callers' "except Exception" branches reject it.  RangeExpr.v itself is unbounded. *)
+  Definition range_expr_ok (s : str) : bool :=
+    match RangeExpr.from_str false false classify s with
+    | Ok e => Z.ltb (RangeExpr.elen e) (2 ^ 63)
+    | Raise _ => false
+    end.
+
   Definition refs_of (s : str) : list str := match fs_refs classify s with Some l => l | None => [] end.
   Definition has_refs (s : str) : bool := match refs_of s with [] => false | _ => true end.
 
@@ -278,7 +287,7 @@ Section V.
       match fget "range" fields with
       | MList items => forallb (fun it => match it with MFmt s => has_refs s | _ => true end) items
       | MFmt s => if has_refs s then true
-                  else match RangeExpr.from_str false false classify s with Ok _ => true | Raise _ => false end
+                  else range_expr_ok s
       | _ => true
       end
     else if String.eqb cname "FloatTaskParameterDefinition" then
@@ -322,7 +331,7 @@ Section V.
       && negb (mem_str (mstr (fget "name" fields)) deps)
     (* ---- job-side target classes (re-validation after substitution) ---- *)
     else if String.eqb cname "RangeExpressionTaskParameterDefinition" then
-      match RangeExpr.from_str false false classify (mstr (fget "range" fields)) with Ok _ => true | Raise _ => false end
+      range_expr_ok (mstr (fget "range" fields))
     else if String.eqb cname "IntRangeListTaskParameterDefinition" then
       forallb (fun it => match parse_int (mstr it) with Some _ => true | None => false end) (mitems (fget "range" fields))
     else if String.eqb cname "FloatRangeListTaskParameterDefinition" then
@@ -336,7 +345,7 @@ Section V.
                       | MList items => [(fst kv, N.of_nat (List.length items))]
                       | MFmt r | MStr r =>
                         match RangeExpr.from_str false false classify r with
-                        | Ok e => [(fst kv, Z.to_N (RangeExpr.elen e))]
+                        | Ok e => if Z.ltb (RangeExpr.elen e) (2 ^ 63) then [(fst kv, Z.to_N (RangeExpr.elen e))] else []
                         | Raise _ => []
                         end
                       | _ => []
